@@ -232,11 +232,15 @@ package pointindex
 // own key as id and no variable widths, and every matrix doubles its predecessor (consecutive keys).
 //@ macro perMatrix(tm, k) = tm.MatrixHeight == tm.MatrixWidth && tm.TileHeight == tm.TileWidth
 //@     && atoiOK(tm.ID) && atoi(tm.ID) == k && len(tm.VariableMatrixWidths) == 0
-//@ macro pairOK(p, t) = deref(t.PointOfOrigin) == deref(p.PointOfOrigin) && t.CornerOfOrigin == p.CornerOfOrigin
+//@ macro pairShape(p, t) = deref(t.PointOfOrigin) == deref(p.PointOfOrigin) && t.CornerOfOrigin == p.CornerOfOrigin
 //@     && t.TileHeight == p.TileHeight && t.MatrixHeight == 2 * p.MatrixHeight
-//@     && 1.99 <= p.CellSize / t.CellSize && p.CellSize / t.CellSize <= 2.01
+//@ macro pairCell(p, t) = 1.99 <= p.CellSize / t.CellSize && p.CellSize / t.CellSize <= 2.01
+//@ macro pairOK(p, t) = pairShape(p, t) && pairCell(p, t)
 // what the JSON decoder guarantees about every tile matrix (validate tags: required, gt=0)
 //@ macro decodedTM(tm) = !isNil(tm.PointOfOrigin) && tm.CellSize > 0 && tm.MatrixHeight <= 4611686018427387904
+// (field-wise: equality of whole tile matrices would drag array extensionality into every query)
+//@ macro sameTM(a, b) = a.PointOfOrigin == b.PointOfOrigin && a.CornerOfOrigin == b.CornerOfOrigin && a.TileHeight == b.TileHeight
+//@     && a.MatrixHeight == b.MatrixHeight && a.CellSize == b.CellSize
 //@ func IsQuadTree
 //@   prelude strings
 //@   requires forall(k Int, hasKey(tms.TileMatrices, k) ==> decodedTM(tms.TileMatrices[k]))
@@ -244,12 +248,13 @@ package pointindex
 //@     invariant 0 - 1 <= i && i < len(tmIDs)
 //@     invariant forall(j, 0, len(tmIDs), hasKey(tms.TileMatrices, tmIDs[j]))
 //@     invariant forall(j, 0, i + 1, perMatrix(tms.TileMatrices[tmIDs[j]], tmIDs[j]))
-//@     invariant forall(j, 1, i + 1, tmIDs[j] == tmIDs[j - 1] + 1 && pairOK(tms.TileMatrices[tmIDs[j - 1]], tms.TileMatrices[tmIDs[j]]))
+//@     invariant forall(j Int, k Int, 0 <= j && k == j + 1 && k <= i ==> tmIDs[k] == tmIDs[j] + 1, trigger(tmIDs[j], tmIDs[k]))
+//@     invariant forall(j Int, k Int, 0 <= j && k == j + 1 && k <= i ==> pairShape(tms.TileMatrices[tmIDs[j]], tms.TileMatrices[tmIDs[k]]), trigger(tmIDs[j], tmIDs[k]))
+//@     invariant forall(j Int, k Int, 0 <= j && k == j + 1 && k <= i ==> pairCell(tms.TileMatrices[tmIDs[j]], tms.TileMatrices[tmIDs[k]]), trigger(tmIDs[j], tmIDs[k]))
 //@     invariant i < 0 ==> isNil(previousTM)
-//@     invariant i >= 0 ==> !isNil(previousTM) && deref(previousTM) == tms.TileMatrices[tmIDs[i]] && previousTMID == tmIDs[i]
+//@     invariant i >= 0 ==> !isNil(previousTM) && sameTM(deref(previousTM), tms.TileMatrices[tmIDs[i]]) && previousTMID == tmIDs[i]
 //@     decreases len(tmIDs) - i
 //@   postlet ids = tmIDs
 //@   ensures[C14] result == nil ==> forall(j, 0, len(ids), perMatrix(tms.TileMatrices[ids[j]], ids[j]))
-//@   ensures[C14] result == nil ==> forall(j, 1, len(ids), ids[j] == ids[j - 1] + 1 && pairOK(tms.TileMatrices[ids[j - 1]], tms.TileMatrices[ids[j]]))
+//@   ensures[C14] result == nil ==> forall(j Int, k Int, 0 <= j && k == j + 1 && k < len(ids) ==> ids[k] == ids[j] + 1 && pairOK(tms.TileMatrices[ids[j]], tms.TileMatrices[ids[k]]))
 //@   ensures[C14] result == nil ==> forall(k Int, hasKey(tms.TileMatrices, k) ==> perMatrix(tms.TileMatrices[k], k))
-//@   ensures[C14] result == nil ==> forall(k Int, hasKey(tms.TileMatrices, k) && hasKey(tms.TileMatrices, k + 1) ==> pairOK(tms.TileMatrices[k], tms.TileMatrices[k + 1]))
